@@ -26,11 +26,11 @@ def tasks(tier):
                 ("t_step", {"n_grains": 2, "steps": 1}), ("t_step", {"n_grains": 2, "steps": 3}), ("t_step", {"n_grains": 3, "steps": 2}),
                 ("t_step", {"n_grains": 2, "steps": 2, "regime": "min_viscosity"}), ("t_step", {"n_grains": 2, "steps": 2, "regime": "max_viscosity"}),
                 ("t_step", {"n_grains": 2, "steps": 2, "regime": "matrix_diffusion"}), ("t_step", {"n_grains": 2, "steps": 2, "regime": "frictional_yielding"}),
-                ("t_rhs_pure", {"n_grains": 2}), ("t_initial_snapshot", {})]
+                ("t_rhs_pure", {"n_grains": 2}), ("t_initial_snapshot", {}), ("t_seed_plumbing", {})]
     return [("t_extract_vars", {"n_grains": n}) for n in (1, 2, 3, 4)] + [
         ("t_step", {"n_grains": n, "steps": s, "regime": rg}) for n in (2, 3, 4) for s in (1, 2, 3)
         for rg in ("matrix_dislocation", "frictional_yielding", "matrix_diffusion", "min_viscosity", "max_viscosity")
-    ] + [("t_rhs_pure", {"n_grains": 3}), ("t_initial_snapshot", {})]
+    ] + [("t_rhs_pure", {"n_grains": 3}), ("t_initial_snapshot", {}), ("t_seed_plumbing", {})]
 
 
 def valid_claims(A, f, N):
@@ -225,6 +225,59 @@ def t_initial_snapshot(sess):
     if not ok:
         sess.cex.append({"name": q.name, "replay": "vf.props.C01:replay_initial", "case": {}, "cls": {"kind": "initial snapshot invalid or not reproducible"}})
     sess.satisfiable("initial snapshot: reach", [])
+
+
+def t_seed_plumbing(sess):
+    """The seed (a symbolic integer, or None) and the grain count reach scipy's Rotation.random unchanged, the
+    generated matrices become the first stored snapshot, and the default volumes are 1/n each: the initial
+    snapshot is a function of (n_grains, seed) only.  Rotation.random itself is a stub (outside the claim)."""
+    minerals = pydrex_modules()["minerals"]
+    real_rotation = minerals.Rotation
+
+    class Spy:
+        calls = []
+
+        def __init__(self, mats):
+            self.mats = mats
+
+        @classmethod
+        def random(cls, num=None, random_state="unset", **kw):
+            cls.calls.append((num, random_state, kw))
+            return cls(np.stack([np.eye(3)] * int(num)))
+
+        def as_matrix(self):
+            return self.mats
+
+    sess.outside_claim("scipy's Rotation.random is replaced by a recording stub: that it returns proper rotations and is deterministic for a fixed seed is scipy's contract")
+    for n in (1, 3):
+        for label in ("symbolic int", "None"):
+            def fn():
+                sd = sym.symint("seed") if label == "symbolic int" else None
+                Spy.calls = []
+                m = minerals.Mineral(n_grains=n, seed=sd)
+                return sd, list(Spy.calls), m
+
+            minerals.Rotation = Spy
+            try:
+                paths, _ = sym.explore(fn)
+            finally:
+                minerals.Rotation = real_rotation
+            tag = f"seed plumbing[n={n}, seed {label}]"
+            sess.paths[tag] = {"paths": len(paths)}
+            for pi, p in enumerate(paths):
+                pt = f"{tag} path {pi}"
+                if p.exc is not None:
+                    sess.prove(f"{pt}: raises {type(p.exc).__name__}: {str(p.exc)[:60]}", p.pc, z3.BoolVal(False))
+                    continue
+                sd, calls, m = p.value
+                good = (len(calls) == 1 and calls[0][0] == n and calls[0][1] is sd and not calls[0][2]
+                        and len(m.orientations) == 1 and len(m.fractions) == 1 and m.orientations[0] is not None
+                        and np.array_equal(np.asarray(m.orientations[0], dtype=float), np.stack([np.eye(3)] * n))
+                        and np.array_equal(np.asarray(m.fractions[0], dtype=float), np.full(n, 1.0 / n)))
+                q = sess.prove(f"{pt}: Rotation.random called once with (n_grains, the caller's seed object); its matrices and uniform volumes are the stored initial snapshot", p.pc, z3.BoolVal(good))
+                if not q.holds:
+                    sess.cex.append({"name": q.name, "replay": "vf.props.C01:replay_initial", "case": {}, "cls": {"kind": "initial snapshot invalid or not reproducible"}})
+            sess.satisfiable(f"{tag}: reach", paths[0].pc if paths else [z3.BoolVal(False)])
 
 
 def replay_initial(case):
